@@ -33,12 +33,25 @@ PARAM_KINDS = OrderedDict(
         ("optstr", OrderedDict((("doc", "the label"), ("typ", "Optional[str]"), ("default", A.NoneStr)))),
     )
 )
-TRUTHS = [["int5"], ["strx"], ["int5", "strx"], ["strx", "boolf"], ["boolf", "int5"], ["float_nodefault", "int5"], ["optstr"], ["int5", "optstr"]]
+TRUTHS = [["int5"], ["strx"], ["int5", "strx"], ["strx", "boolf"], ["boolf", "int5"], ["float_nodefault", "int5"], ["optstr"], ["int5", "optstr"], ["int5", "strx", "boolf"], ["strx", "int5", "optstr"]]
 DIFFERENT = ["zeta_int9"]
-STATES = ["equivalent", "different", "missing", "empty"]
+STATES = ["equivalent", "different", "diff_default", "diff_extra", "missing", "empty"]
 
 PRE = 'import os\n\n\ndef unrelated_before(q=1):\n    """Unrelated."""\n    return q\n\n\n'
 POST = '\n\nclass UnrelatedAfter(object):\n    """Unrelated."""\n\n    k: int = 3\n'
+
+
+def variant(keys, how):
+    """a target interface that differs from the truth only slightly: one default changed / one parameter more"""
+    ir = interface(keys)
+    if how == "diff_default":
+        first = next(iter(ir["params"].values()))
+        first["default"] = {int: 77, str: "other", bool: True, float: 7.5}.get(type(first.get("default")), 77) if first.get("default") != A.NoneStr else "set"
+        if first.get("typ") == "Optional[str]":
+            first["default"] = "set"
+    else:
+        ir["params"]["omega"] = OrderedDict((("doc", "the omega"), ("typ", "int"), ("default", 3)))
+    return ir
 
 
 def interface(keys):
@@ -163,7 +176,7 @@ def run(case):
             if st == "missing":
                 initial[k] = None
                 continue
-            src = "" if st == "empty" else render_target(k, T if st == "equivalent" else D)
+            src = "" if st == "empty" else render_target(k, T if st == "equivalent" else D if st == "different" else variant(case["iface"], st))
             initial[k] = src
             with open(p, "wt") as f:
                 f.write(src)
